@@ -99,7 +99,10 @@ func (f *hFile) coq() string {
 
 var c06Patterns = []string{"git:refs/heads/main", "git:refs/heads/*", "*", "file:src/*", "file:*", "git:refs/heads/m?in", "git:refs/tags/*",
 	"git:*", "file:docs/*", "git:refs/heads/feat*", "**", "git:refs/heads/\\main", "file:src/*.go", "git:refs/heads/ma*n", "", "?it:*"}
-var c06Paths = []string{"git:refs/heads/main", "git:refs/heads/feature", "git:refs/tags/v1", "file:src/a.go", "file:docs/x", "file:src/sub/b.txt", "git:refs/heads/main2", ""}
+var c06Paths = []string{"git:refs/heads/main", "git:refs/heads/feature", "git:refs/tags/v1", "file:src/a.go", "file:docs/x", "file:src/sub/b.txt", "git:refs/heads/main2", "",
+	// near misses of the prefix patterns: the bare prefix and look-alike siblings
+	"file:src", "file:src-old/main.go", "file:src.bak/docs/x", "file:srcs/a.go", "git:refs/heads", "git:refs/heads-archive/main", "git:refs/tagsx/v1", "file:docs", "file:docsx/y",
+	"git:refs/heads/", "file:src/", "git:refs/heads/feat", "GIT:refs/heads/main", "file:src/a.go/", "git:refs/heads/main/sub"}
 
 func genPolicy(r *rand.Rand, oddities bool) []*hFile {
 	nFiles := 1 + r.Intn(4)
